@@ -632,6 +632,11 @@ htp_status_t htp_tx_req_process_body_data_ex(htp_tx_t *tx, const void *data, siz
             if (tx->connp->req_decompressor == NULL)
                 return HTP_ERROR;
 
+            // The decompressor callback measures, every so often, the time spent
+            // since time_before: start that clock here, as the response side does.
+            gettimeofday(&tx->connp->req_decompressor->time_before, NULL);
+            tx->connp->req_decompressor->nb_callbacks = 0;
+
             // Send data buffer to the decompressor.
             htp_gzip_decompressor_decompress(tx->connp->req_decompressor, &d);
 
